@@ -16,10 +16,11 @@ SPEC = dict(
     engines=[dict(name="fuzzy", shards=T(16, 16), timeout=T(900, 3600))],
     rule="case = (database - as loaded, after a same-size replacement through UpdateDatabase, after direct growth -, query, threshold, NLP, limit); non-trivial = the lexical answer is empty and the fallback answered; distinct by "
          "(db, query, threshold, NLP, limit). One database in ten has a semantic word table loaded that knows misspellings (a word of the database with one letter dropped, "
-         "close to that word): requests made of them reach the fallback with the semantic stage armed. One request in seven asks for pipeline commands only (an entry counts as certainly eligible only when it is flagged as a pipeline); one in twelve holds a no-break space, "
+         "close to that word): requests made of them reach the fallback with the semantic stage armed. One database in six holds rare words with a letter that has a third spelling under case folding (micro sign / mu, final sigma, KELVIN SIGN, long s, curled beta ...) and is asked for them in another spelling. "
+         "One request in seven asks for pipeline commands only (an entry counts as certainly eligible only when it is flagged as a pipeline); one in twelve holds a no-break space, "
          "an ideographic space or an invisible format character as pasted text does. Four shards (all in the thorough tier) search a database of 65600 to 131101 "
          "entries whose only in-order matches for the misspelt request are its last 37 entries.",
-    floors=T({"pipeline-only-requests": 1200, "queries-with-non-ascii-blanks-or-format-characters": 900, "databases-over-65536-entries": 4, "databases-with-a-word-table-holding-misspellings": 15, "misspellings-the-word-table-knows": 60, "databases-with-same-text-pairs-of-different-eligibility": 15, "marker-queries": 500, "large-databases": 10, "lexical-answer-exists": 2000, "fallback-answered": 1500, "fallback-with-threshold": 300, "fallback-empty": 300, "fallback-answered-after:same-size-replacement": 150, "fallback-answered-after:append": 150, "distinct_nontrivial": 1500},
-             {"pipeline-only-requests": 60000, "queries-with-non-ascii-blanks-or-format-characters": 45000, "databases-over-65536-entries": 16, "databases-with-a-word-table-holding-misspellings": 800, "misspellings-the-word-table-knows": 3000, "databases-with-same-text-pairs-of-different-eligibility": 700, "marker-queries": 10000, "large-databases": 300, "lexical-answer-exists": 20000, "fallback-answered": 15000, "fallback-with-threshold": 3000, "fallback-empty": 3000, "fallback-answered-after:same-size-replacement": 1500, "fallback-answered-after:append": 1500, "distinct_nontrivial": 15000}),
+    floors=T({"pipeline-only-requests": 1200, "databases-with-letters-of-a-three-member-case-class": 18, "requests-spelt-with-another-member-of-a-case-class": 50, "queries-with-non-ascii-blanks-or-format-characters": 900, "databases-over-65536-entries": 4, "databases-with-a-word-table-holding-misspellings": 15, "misspellings-the-word-table-knows": 60, "databases-with-same-text-pairs-of-different-eligibility": 15, "marker-queries": 500, "large-databases": 10, "lexical-answer-exists": 2000, "fallback-answered": 1500, "fallback-with-threshold": 300, "fallback-empty": 300, "fallback-answered-after:same-size-replacement": 150, "fallback-answered-after:append": 150, "distinct_nontrivial": 1500},
+             {"pipeline-only-requests": 60000, "databases-with-letters-of-a-three-member-case-class": 900, "requests-spelt-with-another-member-of-a-case-class": 2500, "queries-with-non-ascii-blanks-or-format-characters": 45000, "databases-over-65536-entries": 16, "databases-with-a-word-table-holding-misspellings": 800, "misspellings-the-word-table-knows": 3000, "databases-with-same-text-pairs-of-different-eligibility": 700, "marker-queries": 10000, "large-databases": 300, "lexical-answer-exists": 20000, "fallback-answered": 15000, "fallback-with-threshold": 3000, "fallback-empty": 3000, "fallback-answered-after:same-size-replacement": 1500, "fallback-answered-after:append": 1500, "distinct_nontrivial": 15000}),
     assumptions=["match quality = the score github.com/sahilm/fuzzy assigns to command + ' ' + description of that single entry"],
 )
